@@ -58,6 +58,20 @@ CLAIMED = {
             'derived token scope is not among the registered scope types '
             'and enforcement is on, otherwise exactly the check',
             'z3; finite table; real files / oslo.config / oslo.context'),
+    'C05': ('5/C05', 'generic checks with literal and dotted-path left '
+            'sides against lazily typed symbolic JSON credentials (every '
+            'JSON type at every inspected position, lists fanning out) and '
+            'symbolic right sides / placeholder values decide as the '
+            'resolution procedure of the statement',
+            'z3; symbolic JSON generator bounds (depth, width, menus) in '
+            'the evidence; don\'t-cares: container literals, paths into '
+            'non-containers (C14)'),
+    'C14': ('5/C14', 'every left side up to the token bound over a hostile '
+            'alphabet, every JSON type at every path position, every '
+            'placeholder name/target-value type: only documented '
+            'exceptions escape enforce and unevaluable checks deny',
+            'z3; bounded token length / structure depth; roles are lists '
+            'of strings as the property assumes'),
 }
 
 PENDING_REASON = ('check not built yet in this session (work in progress; '
